@@ -119,7 +119,7 @@ func c13GenProgram(rng *kit.RNG) (prog []c13Round, ngroups int) {
 func TestVerifC13Schedules(t *testing.T) {
 	rep := kit.NewReport("C13", "schedules")
 	defer rep.Write()
-	rep.SetRule("seeded programs of 3..7 rounds, each 1..4 CONCURRENT actions on 1..2 consumer groups of one partition of a single-node server: partition.Subscribe (epoch equal / newer / older than the planned group maximum; consumer ids all distinct, from a pool of 3, or mostly the same; NEW_ONLY, EARLIEST, stop offset, STOP_LATEST, invalid stop<start; consumer goroutine optionally gated), context cancellation, sub.Close(), release of drain gates, release of parked clean-ups; the sub.beforeRemoveGroup hook passes / yields / sleeps / parks each exiting loop's clean-up (PRNG). " + c13Rule)
+	rep.SetRule("seeded programs of 3..7 rounds, each 1..4 CONCURRENT actions on 1..2 consumer groups of one partition of a single-node server: partition.Subscribe (epoch equal / newer / older than the planned group maximum; consumer ids all distinct, from a pool of 3, or mostly the same; NEW_ONLY, EARLIEST, stop offset, STOP_LATEST, invalid stop<start; consumer goroutine optionally gated), context cancellation, sub.Close(), release of drain gates, release of parked clean-ups; 3 of 8 programs run with their epochs re-labelled monotonically onto boundary values of the uint64 domain (low: 0,1,2..; high: max-3..max; mixed: 0,1,max-1,max) for current and incoming members; the sub.beforeRemoveGroup hook passes / yields / sleeps / parks each exiting loop's clean-up (PRNG). " + c13Rule)
 	rep.Assume("a subscription whose loop has left its body but whose group entry is not yet removed still counts as a possible holder for refusals (transient state); a stale entry found at quiescence with no ACTIVE subscription is only counted, not judged")
 	workers := kit.Workers()
 	env := c13Start(rep, "c13s", workers)
@@ -139,9 +139,17 @@ func TestVerifC13Schedules(t *testing.T) {
 		}
 		rng := kit.NewRNG(seeds[i])
 		prog, ng := c13GenProgram(rng)
+		// 3 of 8 cases run under a boundary epoch alphabet (c13_api_test.go)
+		al := "plain"
+		if i%8 >= 5 {
+			al = c13EpochAlphabets[i%8-4]
+			prog = c13MapProgram(al, prog)
+		}
 		st := <-env.pool
 		c := c13NewCase(rep, "schedules", i, seeds[i], env.srv, st, ng, "random", prog)
+		c.label = "alphabet " + al
 		c.run()
+		c13CountBoundary(c)
 		if i < 3 {
 			rep.Sample(map[string]interface{}{"case": i, "program": c13ProgString(prog), "outcome": c.signature()})
 		}
@@ -203,13 +211,7 @@ func (k c13Combo) program() (prog []c13Round, policy string) {
 	return prog, policy
 }
 
-// TestVerifC13Handover: every combination of the three-member hand-over.
-func TestVerifC13Handover(t *testing.T) {
-	rep := kit.NewReport("C13", "handover")
-	defer rep.Write()
-	rep.SetRule("small-scope enumeration, one step at a time (exact, no concurrency between calls): member x (epoch 5) subscribes; it then stays live / ends by itself (stop-latest, with or without the consumer's Close()) / is cancelled through its context / is Close()d; its loop's clean-up runs BEFORE the next subscribe or is parked by the hook until AFTER it; a new member (same or other consumer id; epoch 4, 5, 6; NEW_ONLY, EARLIEST, STOP_LATEST or invalid stop<start) subscribes; parked clean-ups are released; a third member (new id or the id of the second; epoch 3, 5, 6) subscribes. " + c13Rule)
-	rep.SetExhaustive(true)
-	var combos []c13Combo
+func c13HandoverCombos() (combos []c13Combo) {
 	for _, old := range [][2]string{{"live", "new"}, {"live", "earliest"}, {"ctxCancel", "new"}, {"ctxCancel", "earliest"}, {"close", "new"}, {"close", "earliest"}, {"selfEnd", "stopLatest"}, {"selfEndNoClose", "stopLatest"}} {
 		for _, timing := range []string{"before", "after"} {
 			for _, cid2 := range []string{"same", "other"} {
@@ -225,6 +227,16 @@ func TestVerifC13Handover(t *testing.T) {
 			}
 		}
 	}
+	return combos
+}
+
+// TestVerifC13Handover: every combination of the three-member hand-over.
+func TestVerifC13Handover(t *testing.T) {
+	rep := kit.NewReport("C13", "handover")
+	defer rep.Write()
+	rep.SetRule("small-scope enumeration, one step at a time (exact, no concurrency between calls): member x (epoch 5) subscribes; it then stays live / ends by itself (stop-latest, with or without the consumer's Close()) / is cancelled through its context / is Close()d; its loop's clean-up runs BEFORE the next subscribe or is parked by the hook until AFTER it; a new member (same or other consumer id; epoch 4, 5, 6; NEW_ONLY, EARLIEST, STOP_LATEST or invalid stop<start) subscribes; parked clean-ups are released; a third member (new id or the id of the second; epoch 3, 5, 6) subscribes. " + c13Rule)
+	rep.SetExhaustive(true)
+	combos := c13HandoverCombos()
 	rep.SetInfo("combinations", len(combos))
 	workers := kit.Workers()
 	env := c13Start(rep, "c13h", workers)
